@@ -538,6 +538,17 @@ pub fn judge(prop: &str, run: &Run, obs: &[Obs]) -> Judgement {
 fn step(cx: &mut Ctx, idx: usize, op: &Op, ob: &Obs) {
     if let Obs::Skipped(why) = ob {
         cx.j.trace.push(format!("skipped:{}", why.split(' ').next().unwrap_or("")));
+        // a verifier that cannot even be constructed from the public half of a GENUINE key pair (one the
+        // harness derived with an independent implementation) can never "verify under the corresponding
+        // public key"
+        if let Op::NewVerifier { spec, .. } = op {
+            if why.contains("constructor refused") {
+                let genuine = spec.proto == Proto::V3P && matches!(cx.keys.get(spec.key), Some(KeyMat::P384 { .. }));
+                if genuine {
+                    cx.clause("C02", "genuine_public_key_is_accepted", idx, false, "the key constructor accepts the public half of a valid key pair", why.clone(), &[("proto", spec.proto.name().into())]);
+                }
+            }
+        }
         return;
     }
     match (op, ob) {
